@@ -237,6 +237,53 @@ def task(p, cse, k, max_dt, tier, seed):
     return part.d
 
 
+def task_compile_only(p, cse, k, max_dt, tier, seed):
+    """Compile clause on models whose symbolic exploration would fork too widely (switching functions): the generated
+    filter is wrapped in ManagedFilter and ticked with and without readings in a plain-double translation unit; g++ decides."""
+    part = Part()
+    part.program(p.id)
+    part.fn("ManagedFilter<generated ExtendedKalmanFilter>::tick", "ManagedFilter::compatible", "cpp.compile_ekf", "cpp.BasicBlock.compile")
+    variant = f"control={int(bool(p.control))}/cal={int(bool(p.calibration))}/sensors={len(p.sensors)}"
+    key_base = f"{p.id}/{variant}/k={k}/max_dt={max_dt}/compile-only"
+    info = {"program": p.id, "cse": cse, "k": k, "max_dt": max_dt}
+    rng = random.Random(seed + 12)
+    for name, t0, readings, out_time in schedules(p, max_dt)[:4]:
+        body = driver(p, max_dt, t0, readings, out_time)
+        sinfo = dict(info, schedule=name, t0=t0, readings=readings, out=out_time)
+        try:
+            cf = CppFilter(p, ekf=True, cse=cse, k=k, max_dt=max_dt, extra_body=body, extra_includes=MF_INCLUDES)
+            cf.__enter__()
+        except Exception as ex:
+            part.harness_error(f"{key_base}: generation failed: {type(ex).__name__}: {ex}")
+            return part.d
+        try:
+            try:
+                cf.compile_concrete()
+            except build.BuildError as ex2:
+                first = [l for l in ex2.log.splitlines() if "error" in l][:1]
+                path = write_replay(PID, {"key": f"compile/{variant}", "info": dict(sinfo, kind="compile"), "inputs": {}, "compiler_log": ex2.log[-3000:]})
+                part.violation(f"compile/{variant}", f"ManagedFilter<generated filter> does not compile / is not compatible ({p.id}, {variant}, schedule {name}): {first}", path)
+                return part.d
+            part.record(Q("unsat", None, 0.0, ""), f"{key_base}/{name}: compatibility static_assert + tick instantiate and compile (decided by g++)")
+            # concrete agreement of the managed tick with the by-hand sequence at seeded points (replay target)
+            for _ in range(2):
+                e = concrete_inputs(p, readings, rng)
+                try:
+                    outs, _, _ = cf.run_concrete("", e)
+                except build.BuildError as ex:
+                    part.d["inconclusive"].append(f"{key_base}/{name}: concrete driver failed: {str(ex)[:120]}")
+                    break
+                diffs = compare_outs(outs)
+                part.record(Q("sat" if diffs else "unsat", None, 0.0, ""), f"{key_base}/{name}: managed tick == by-hand sequence at a seeded point (concrete)")
+                if diffs:
+                    path = write_replay(PID, {"key": f"tick-vs-by-hand/{variant}/{name}", "info": dict(sinfo, kind="tick"), "inputs": e, "diffs": diffs[:5]})
+                    part.violation(f"tick-vs-by-hand/{variant}/{name}", f"managed tick differs from the by-hand call sequence ({p.id}, {name}) at {e}: {diffs[:2]}", path)
+                    return part.d
+        finally:
+            cf.__exit__(None, None, None)
+    return part.d
+
+
 def concrete_inputs(p, readings, rng):
     e = {nm: rng.randint(-8, 8) / 8.0 for nm in pyh.input_env(p)}
     e.update(pyh.seeded_cov_env(p.state, rng))
@@ -289,10 +336,16 @@ def configs(tier, seed):
     return out
 
 
+def _dispatch(fn, args):
+    return fn(*args)
+
+
 def run(tier, seed):
     rep = Report(PID, tier, seed, "other")
     cfgs = configs(tier, seed)
-    for d in pmap(task, [(p, cse, k, md, tier, seed) for p, cse, k, md in cfgs]):
+    co = [(CP.P18(), True, None, 0.1), (CP.P18().restrict(control=False), True, 4.0, 0.25)]
+    tasks = [(task, (p, cse, k, md, tier, seed)) for p, cse, k, md in cfgs] + [(task_compile_only, (p, cse, k, md, tier, seed)) for p, cse, k, md in co]
+    for d in pmap(_dispatch, tasks):
         rep.merge(d)
     rep.bounds = {"configurations": [f"{p.id}/k={k}/max_dt={md}" for p, _, k, md in cfgs], "timestamps": "concrete schedules (0, 1, 2 full steps + remainder, forwards/backwards/same time, readings before/after the held time, out of order); all times are decided symbolically in C10/C11", "values": "all real states, covariances, controls, calibrations, readings", "compile_clause": "decided by g++ -std=c++17 (symbolic and plain-double builds), not by SMT"}
     rep.assumptions = ["stand-in Eigen/Dense", "`#define private public` around ManagedFilter.h in the harness translation unit only (to read the held state)", "by-hand step schedule computed by a float mirror of the documented stepping rule"]
@@ -310,6 +363,8 @@ def replay(path):
     info = r["info"]
     ps = {}
     for p, _, _, _ in configs("thorough", 0) + configs("quick", 0):
+        ps[p.id] = p
+    for p in (CP.P18(), CP.P18().restrict(control=False)):
         ps[p.id] = p
     p = ps[info["program"]]
     readings = [tuple(x) for x in info["readings"]]
